@@ -22,6 +22,15 @@ def readAlloc (mutableDefault : Bool) (sharedId : Nat) (a : Alloc) (n : Nat) : L
 /-- a store of dict contents by id; an edit writes one cell -/
 def edit (store : Nat → List Nat) (id v : Nat) : Nat → List Nat := fun i => if i = id then v :: store i else store i
 
+/-- an object (a layout, a pair of sizes, a node) built for a key.  Through a memoising function (`functools.lru_cache`, a
+    weak-value flyweight table) the object stored for the key is handed out again; without one, every call builds a new object -/
+def construct (memo : Bool) (table : List (Nat × Nat)) (a : Alloc) (key : Nat) : Nat × List (Nat × Nat) × Alloc :=
+  if memo then
+    match table.lookup key with
+    | some o => (o, table, a)
+    | none => (a.next, (key, a.next) :: table, ⟨a.next + 1⟩)
+  else (a.next, table, ⟨a.next + 1⟩)
+
 /-- `SCCReader.read` on a reader object in state `r0` -/
 def sccReadFrom (resets : Bool) (r0 : Scc.Reader) (content : Str) (offset : Rat) : Scc.Reader :=
   let r : Scc.Reader := if resets then { off := offset * 1000000 } else { r0 with off := offset * 1000000 }
